@@ -301,3 +301,91 @@ func ruleIdleCoversTop(r *Run) {
 	}
 	r.check(n >= 1, "repo:AnyScaleUpdating", fmt.Sprintf("%d implementations", n), "no AnyScaleUpdating found", "-")
 }
+
+// ---------------------------------------------------------------------------------------------
+// R11.10 / R20.17 — no map write under a read lock; R20.16 (=R11.5)
+
+func init() {
+	register(ruleDef{ID: "R11.10", Prop: "C11", Tier: "quick", Floor: 1,
+		Title: "a map that lives next to an RWMutex in one object is not written while only the read lock of that mutex is held (readers run concurrently: two writers corrupt the map)",
+		Fn:    ruleNoMapWriteUnderRLock})
+	register(ruleDef{ID: "R20.17", Prop: "C20", Tier: "quick", Floor: 1,
+		Title: "no `fatal error: concurrent map writes` from a well-formed request (shared with R11.10): map writes guarded by an object's RWMutex hold its write lock",
+		Fn:    ruleNoMapWriteUnderRLock})
+	register(ruleDef{ID: "R20.16", Prop: "C20", Tier: "quick", Floor: 20,
+		Title: "no request leaves a lock behind (shared with R11.5): every mutex locked in a function is unlocked on every return path, so a rejected request cannot wedge the requests that follow",
+		Fn:    ruleR11_5})
+}
+
+func ruleNoMapWriteUnderRLock(r *Run) {
+	w := r.W
+	nRead, nSites := 0, 0
+	for _, f := range w.RepoFuncs {
+		if len(f.Blocks) == 0 || strings.HasSuffix(w.fposFile(f), "_test.go") {
+			continue
+		}
+		p := relPkg(pkgPathOf(f))
+		if !strings.HasPrefix(p, "datatype/") && p != "datastore" && !strings.HasPrefix(p, "storage") && p != "server" {
+			continue
+		}
+		// read-lock acquisitions in f: key → base object key
+		rlocks := map[string]string{}
+		for _, b := range f.Blocks {
+			for _, in := range b.Instrs {
+				op, ok := asLockOp(in)
+				if !ok || !op.lock || op.write {
+					continue
+				}
+				c := in.(*ssa.Call)
+				if fa, ok := c.Call.Args[0].(*ssa.FieldAddr); ok {
+					rlocks[op.key] = addrKey(fa.X)
+				}
+			}
+		}
+		if len(rlocks) == 0 {
+			continue
+		}
+		nRead++
+		k := 0
+		for _, b := range f.Blocks {
+			for _, in := range b.Instrs {
+				var m ssa.Value
+				switch x := in.(type) {
+				case *ssa.MapUpdate:
+					m = x.Map
+				case *ssa.Call:
+					if bi, ok := x.Call.Value.(*ssa.Builtin); ok && bi.Name() == "delete" {
+						m = x.Call.Args[0]
+					}
+				}
+				if m == nil {
+					continue
+				}
+				u, ok := m.(*ssa.UnOp)
+				if !ok {
+					continue
+				}
+				fa, ok := u.X.(*ssa.FieldAddr)
+				if !ok {
+					continue
+				}
+				base := addrKey(fa.X)
+				for key, mbase := range rlocks {
+					if mbase != base {
+						continue
+					}
+					held, write := heldKeyAt(f, in, key)
+					if !held {
+						continue
+					}
+					nSites++
+					k++
+					name, _, _ := fieldName(fa)
+					r.check(write, fmt.Sprintf("%s:map-write#%d:%s:needs-write-lock", fname(f), k, name), "the map is written with the write lock held",
+						"the map "+name+" is written while only the read lock of the object's RWMutex is held: other holders of the read lock write or read it at the same time (lost entries, or the runtime's fatal `concurrent map writes`)", w.pos(in.Pos()))
+				}
+			}
+		}
+	}
+	r.check(nRead >= 20, "repo:read-locked-functions", fmt.Sprintf("%d functions taking a read lock examined, %d map writes inside a section of the same object's lock", nRead, nSites), "too few functions with read locks: rule needs review", "-")
+}
